@@ -1,5 +1,5 @@
 from checks import apifam, concfam
-GUARDS = {"OwnershipQuery", "DefaultFallsBack", "SetDefaultReturnsOld", "BackingHeap", "DestroyOfLiveHeap", "DeleteOfLiveHeap",
+GUARDS = {"BlockConservation.dup", "BlockConservation.lost", "ListsStayInPage", "OwnershipQuery", "DefaultFallsBack", "SetDefaultReturnsOld", "BackingHeap", "DestroyOfLiveHeap", "DeleteOfLiveHeap",
           "ContentsKept.gen", "ContentsKept.bytes", "ObsOfLiveBlock", "NoOverlap", "FreeOfLiveBlock", "CheckAllComplete", "QuiescentClean",
           "WalkCount", "WalkEveryLiveOnce", "WalkOnlyLive"}
 def run(tier, seed):
@@ -7,10 +7,10 @@ def run(tier, seed):
     V, cov = apifam.run_api("C10", tier, seed, profiles=["c10"], builds=["rel", "dbg", "sec"], own_guards=GUARDS, crash_decisive=True, gen=(24, 200), finish=False)
     # concurrent part: mi_heap_delete / mi_heap_collect racing with remote frees into that heap, under the deterministic scheduler
     jobs = [
-        {"prog": "page-delete", "strategy": "random", "runs": (250, 3000), "args": ["--spurious", "2", "--rate", "3"]},
-        {"prog": "page-delete", "strategy": "pct", "runs": (150, 2000), "args": ["--spurious", "1"]},
-        {"prog": "page-collect", "strategy": "random", "runs": (150, 2000), "args": ["--spurious", "2", "--rate", "2"]},
-        {"prog": "page-delete", "strategy": "random", "runs": (100, 1500), "args": ["--size", "60000", "65536", "--spurious", "1"]},
+        {"prog": "page-delete", "strategy": "random", "runs": (250, 3000), "args": ["--snap", "3", "--spurious", "2", "--rate", "3"]},
+        {"prog": "page-delete", "strategy": "pct", "runs": (150, 2000), "args": ["--snap", "3", "--spurious", "1"]},
+        {"prog": "page-collect", "strategy": "random", "runs": (150, 2000), "args": ["--snap", "3", "--spurious", "2", "--rate", "2"]},
+        {"prog": "page-delete", "strategy": "random", "runs": (100, 1500), "args": ["--snap", "3", "--size", "60000", "65536", "--spurious", "1"]},
     ]
     V, cov2 = concfam.run_conc("C10", tier, seed, jobs, GUARDS, mc=("MiPage", ("MiPage_mc.cfg", "MiPage_mc_thorough.cfg")), guided_progs=("page-delete",),
                                V=V, finish=False)
